@@ -60,6 +60,7 @@ Clause(s, rows, P) ==
                    {rows[(i - 1) * s.n + j][s.v].fr12 * (s.n + 1) : j \in 1..s.n} # {12 * r : r \in 1..s.n} THEN "incomplete-grid"
          ELSE IF s.kind = "data" /\ \E j \in DOMAIN rows : rows[j][s.v].did # ((j - 1) % s.n) + 1 THEN "data-row-order"
          ELSE IF s.kind = "filtered" /\ \E j \in DOMAIN rows : rows[j][s.v].half # 1 THEN "filter-violated"
+         ELSE IF s.kind = "narrow" /\ \E j \in DOMAIN rows : rows[j][s.v].top # 1 THEN "filter-violated"
          ELSE "ok"
     [] s.k = "prod" ->
          LET na == PerRow(s.a)
